@@ -1,8 +1,10 @@
 import LncModel.Basic
 /-
   Mirror of mailbox/interface.go MsgData.Serialize / Deserialize.
-  `Deserialize` is a method that mutates its receiver and leaves `Payload`
-  untouched when the length prefix is 0, so the model takes the receiver value.
+  `Deserialize` is a method that mutates its receiver, so the model takes the
+  receiver value.  Since repair (finding 19) the payload of the receiver is
+  cleared when the length prefix is 0; `deserializeIntoOld` is the behaviour
+  before it (`Payload` left untouched for length 0).
 -/
 namespace Lnc.Mailbox
 
@@ -27,6 +29,16 @@ def MsgData.serialize (m : MsgData) : Bytes :=
     `5 + int(payloadLen)` therefore cannot overflow and the slice expression
     `b[5 : 5+int(payloadLen)]` is in range after the length guard. -/
 def MsgData.deserializeInto (recv : MsgData) (b : Bytes) : Outcome MsgData :=
+  match b with
+  | v :: l0 :: l1 :: l2 :: l3 :: rest =>
+    let plen := readBe32 l0 l1 l2 l3
+    if b.length < 5 + plen then .err "EOF"
+    else if plen > 0 then .ok { version := v, payload := rest.take plen }
+    else .ok { version := v, payload := [] }
+  | _ => .err "EOF"
+
+/-- before the repair: a message without payload left the receiver's payload in place -/
+def MsgData.deserializeIntoOld (recv : MsgData) (b : Bytes) : Outcome MsgData :=
   match b with
   | v :: l0 :: l1 :: l2 :: l3 :: rest =>
     let plen := readBe32 l0 l1 l2 l3
